@@ -304,7 +304,29 @@ ADDED56 = {
   'C19': "Fifth batch: the handler that forgets remembered flood bits is subscribed in every mode; the recurring timer's callback never returns False. Sixth batch: every link event recomputes the tree; per-dpid discovery state is withdrawn only when the connection that went down is the registered one.",
   'C20': "Sixth batch: the closed flag is set before the close handlers run; facts independent of local variable names.",
 }
-for _d in (ADDED, ADDED56):
+# seventh batch (DESIGN 9.19): rules for code outside the named mechanisms, and obligations shared between properties (ctx.include)
+ADDED7 = {
+  'C01': "Seventh batch: IPAddr.toSigned evaluated on sample addresses (signed slot of nw-addr actions); vendor hook positions relative to the message; stats list-ness by replaying registrations in source order.",
+  'C02': "Seventh batch: every caller of the decoder-table builder gets its own list; shares C01's rules about the vendor decode hook.",
+  'C03': "Seventh batch: a cloned match keeps the wildcard word.",
+  'C04': "Seventh batch: the table-modification handler never asks revent to unsubscribe it; the MODIFY update loop may live in the table class (callee summary); shares C03's rules about subsumption / exactness / effective priority.",
+  'C05': "Seventh batch: handler-return shortcut values evaluated against the dispatch protocol; exception hooks use their argument as it is passed.",
+  'C06': "Seventh batch: reporting a failed task is itself contained (or every task __str__ is total); shares C07's rules about scheduling from another thread.",
+  'C07': "Seventh batch: no falsy task class while the lock tests its owner by truth value; break_idle signals on every path.",
+  'C08': "Seventh batch: each get_deferral takes out a new deferral; shares C05's rules about raiseEventNoErrors and its hooks.",
+  'C09': "Seventh batch: str(connection) is total and the DPID formatter is evaluated on sample DPIDs.",
+  'C10': "Seventh batch: str(connection) totality (the task's own except clause logs it); shares C01's rules about the vendor decode hook.",
+  'C11': "Seventh batch: shares C09's rules about Connection.read, C13's about the flow-mod handler and the printers it evaluates, C18's about the buffer routines.",
+  'C12': "Seventh batch: no truth tests on packet objects; shares C18's rules about the use-and-free routine.",
+  'C13': "Seventh batch: printing methods evaluated eagerly by request handlers are total on wire values; _validate of request classes rejects no value ranges (send_error re-packs the request); shares C02's rules about the switch-side read loop.",
+  'C14': "Seventh batch: DirtyDict compares before it stores; the datagram id counter stays within 16 bits; the unparsed-payload fallback depends on the parsed flag alone; cross-module pseudo-header helpers are evaluated.",
+  'C15': "Seventh batch: symbolic shortfall for sequences walked by index; address printers (max/min over loop-built lists); collected TCP options are option objects.",
+  'C17': "Seventh batch: raises inside event-class helpers are followed; shares C05's rules about the dispatch loop and C09's about the replay of early port status.",
+  'C18': "Seventh batch: packet-in data is the frame's current bytes; no truth tests on packet objects.",
+  'C19': "Seventh batch: is_edge_port evaluated on a sample adjacency; shares C17's rules about the port view and C09's about disconnect / registry.",
+  'C20': "Seventh batch: str(connection) totality on the error paths; the global `sending` flag is cleared only under the empty-map test; shares C09's rules about the disconnect state machine.",
+}
+for _d in (ADDED, ADDED56, ADDED7):
   for _k, _v in _d.items():
     if _k in P: P[_k]['text'] = P[_k]['text'] + " " + _v
 
